@@ -17,7 +17,8 @@ BOUNDS = {
     "quick": "clique_equation tau=2..6 with tau-1 distinct symbolic H and symbolic phi; chordless cycles n=3..8; "
              "Q(n,.) for n<=9 and QQ(n,.) for n<=5 through the component-decomposition identity in a real variable x "
              "(all k at once) plus out-of-range k; number_of_connected_graphs on every graph with <=4 vertices x every "
-             "vertex subset x focal vertex, all k at once as a polynomial identity in phi",
+             "vertex subset x focal vertex and on four 6-8 vertex substrates with bridges (whole vertex set / one vertex left out), all k at once as a "
+             "polynomial identity in phi",
     "thorough": "tau<=9, cycles n<=14, Q for n<=14, QQ for n<=6, number_of_connected_graphs on every graph with <=5 vertices",
 }
 OUTSIDE = "tau>9, n>14; floating-point rounding; Q/QQ with non-integer arguments"
@@ -54,6 +55,13 @@ def configs(tier):
         lab = {v: [4, 9, 2, 7, 0][j] for j, v in enumerate(nodes)}
         cfgs.append({"name": f"counter-g{gi}-n{len(nodes)}m{g.number_of_edges()}", "kind": "counter",
                      "nodes": [lab[v] for v in nodes], "edges": [(lab[a], lab[b]) for a, b in g.edges()]})
+    big = {"two-triangles-bridge": [(0, 1), (1, 2), (0, 2), (3, 4), (4, 5), (3, 5), (2, 3)],
+           "two-K4-bridge": [(0, 1), (0, 2), (0, 3), (1, 2), (1, 3), (2, 3), (4, 5), (4, 6), (4, 7), (5, 6), (5, 7), (6, 7), (3, 4)],
+           "K4-path-triangle": [(0, 1), (0, 2), (0, 3), (1, 2), (1, 3), (2, 3), (3, 4), (4, 5), (5, 6), (6, 4)],
+           "bowtie-plus": [(0, 1), (1, 2), (0, 2), (2, 3), (3, 4), (2, 4), (4, 5), (5, 0)]}
+    for nm, edges in big.items():
+        nodes = sorted({v for e in edges for v in e})
+        cfgs.append({"name": f"counter-{nm}", "kind": "counter", "nodes": nodes, "edges": edges, "whole": True})
     return cfgs
 
 
@@ -144,7 +152,11 @@ def path(ctx, cfg):
         # the vertex subset (containing the focal vertex) and the focal vertex are forked
         i = nodes[ctx.fork_int(ctx.int("focal", 0, len(nodes) - 1))]
         others = [v for v in nodes if v != i]
-        ak = [v for j, v in enumerate(others) if ctx.fork_bool(ctx.bool(f"in{j}"))]
+        if cfg.get("whole"):  # larger substrates: the whole vertex set or everything but one vertex
+            drop = ctx.fork_int(ctx.int("drop", -1, len(others) - 1))
+            ak = [v for j, v in enumerate(others) if j != drop]
+        else:
+            ak = [v for j, v in enumerate(others) if ctx.fork_bool(ctx.bool(f"in{j}"))]
         sub = [i] + ak
         sub_edges = [(a, b) for a, b in edges if a in sub and b in sub]
         m = len(sub_edges)
